@@ -29,6 +29,10 @@ inductive Ev where
   | connect (c : Nat)            -- a client connects
   | acquire                      -- listener: `limit_connections.acquire().await.forget()`
   | accept                       -- listener: `accept()` returns the oldest pending connection
+  /-- the accept(2) call fails (`EMFILE`, `ECONNABORTED`, ...): `Listener::accept` sleeps for its back-off and
+      tries again, still holding the one permit it took before; `gone` = the failure took the oldest pending
+      connection with it (`ECONNABORTED`: the peer had already left) -/
+  | acceptFail (gone : Bool)
   | finish (c : Nat) (w : Cause) -- handler of `c` ends: `Drop` adds one permit
 deriving Repr
 
@@ -42,6 +46,8 @@ def step (s : St) : Ev → Option St
       | [] => none
       | c :: rest => some { s with holding := false, pending := rest, handlers := s.handlers ++ [c] }
     else none
+  | .acceptFail gone =>
+    if s.holding then some (if gone then { s with pending := s.pending.tail } else s) else none
   | .finish c _ =>
     if c ∈ s.handlers then some { s with handlers := s.handlers.erase c, permits := s.permits + 1 } else none
 
@@ -92,6 +98,12 @@ theorem step_inv {s s' : St} {e : Ev} (h : Inv s) (hs : step s e = some s') : In
       · simp only [Option.some.injEq] at hs; subst hs
         simp [hh] at h ⊢; omega
     · cases hs
+  | acceptFail gone =>
+    simp only [step] at hs
+    split at hs
+    · simp only [Option.some.injEq] at hs; subst hs
+      cases gone <;> simpa using h
+    · cases hs
   | finish c w =>
     simp only [step] at hs
     split at hs
@@ -121,6 +133,10 @@ theorem step_max {s s' : St} {e : Ev} (hs : step s e = some s') : s'.max = s.max
     · split at hs
       · cases hs
       · simp only [Option.some.injEq] at hs; subst hs; rfl
+    · cases hs
+  · split at hs
+    · simp only [Option.some.injEq] at hs; subst hs
+      split <;> rfl
     · cases hs
   · split at hs
     · simp only [Option.some.injEq] at hs; subst hs; rfl
